@@ -358,12 +358,27 @@ def run(ctx):
     from .c09 import r5b_completion_flag
 
     r5b_completion_flag(ctx, 'C07.R5')
+    from .shared import queue_put_retries_until_done
+
+    queue_put_retries_until_done(ctx, 'C07.R5')
     from .shared import deletion_confined_to_gc_commands
 
     # a repeat snapshot finds the chunks it needs: nothing but delete / clean removes a stored chunk
     deletion_confined_to_gc_commands(ctx, 'C07.R7')
+    # ... and delete removes exactly the chunks no remaining snapshot references (keep set built from every other snapshot,
+    # plain set difference applied before anything is deleted)
+    from .c02 import r1_keep_set, r4_subtraction_order
+    from .gcroles import DeleteRoles
+
+    _roles = DeleteRoles(ctx.corpus)
+    _sub = r1_keep_set(Relabel(ctx, 'C07.R7'), _roles)
+    r4_subtraction_order(Relabel(ctx, 'C07.R7'), _roles, _sub)
     # chunking and naming parameters are those of THIS repository: nothing but content-addressed snapshot objects goes
     # through the per-user cache (a cached `config` would be another repository's)
     from .c18 import r3b_cache_holds_snapshot_objects_only
 
     r3b_cache_holds_snapshot_objects_only(Relabel(ctx, 'C07.R2'))
+    # a chunk's name is a function of its bytes alone: a hashing context kept on the adapter is used through copies only
+    from .c17 import r10_adapter_prototypes_not_shared
+
+    r10_adapter_prototypes_not_shared(Relabel(ctx, 'C07.R2'))
